@@ -43,6 +43,11 @@ NEEDED = {
     "S-C05-5": "new harness configuration 'incronly-text': an incremental serializer that implements only the incremental interface, so that its inherited one-shot deserialize() raises IncrementalDeserializeError on malformed datagrams (used by C01, C05, C06)",
     "S-C06-5": "none: wrong remainder of a limit error for separators of 3+ bytes; a mis-framing defect (C02 catches it), no foreign exception and progress is kept",
     "S-C07-5": "C07 server request receiver scenario: handler waiting with a timeout and continuing after TimeoutError, endless unterminated line dripped with pauses shorter and longer than the timeout (C15 caught it before)",
+    "S-C08-5": "C08 TLS over the real asyncio socket adapter: 0.4-1 MiB written while the reader is busy (the protocol pauses reading), then read with buffers as large as the backlog",
+    "S-C09-5": "C09 high-level AsyncTCPNetworkServer whose handler closes the client, ssl_standard_compatible unset / True / False (close notification seen by an independent peer, TLSAttribute.standard_compatible in the handler)",
+    "S-C12-5": "C12 state-query poller extended to client.fileno() and the socket proxy (client.socket.*); half of the runs keep the sender blocked for 1.3 s",
+    "S-C13-5": "C13 'receive vs cancel in the same loop iteration' scenario (driver and order monitor shared with C10) with the new monitor event completed-despite-cancel",
+    "S-C14-5": "C14 known-finding keys made shape-specific: the coarse key left-open:server-client-behind-sender:cancel-in-send_lock_wait had masked this seed (different outcome: cancelled instead of BusyResourceError)",
     "S-C16-2": "C16 datagrams arriving before serve() and a stop + restart of serve() on the same listener",
     "S-C19-2": "C19 client level: AsyncTCPNetworkClient closed / its waiter cancelled at every step of the race",
     "S-C04-2": "C04 interrupted send then resume (C20 caught it before)",
